@@ -11,7 +11,7 @@ ANCHOR_PREFIXES = ["element::SvgElement::handle_containment", "element::SvgEleme
                    "position::Length", "position::strp_length", "context::"]
 BOUNDS = ("container in {rect, circle, ellipse}; surround / inside lists of 1-3 references (inside: also three references of different kinds) to {rect, circle, ellipse, line, g, another surround}; margin with 0-4 values, absolute symbolic "
           "(either sign for rect containers, >= 0 for circle/ellipse) or percent in {25%, 50%}; positions k/2 in [-128,128], sizes integers in [0,64], margins k/2 in [-16,16]; "
-          "circle/ellipse enclosure decided over the real hull of the domain with relative slack 1.001 on r^2 (single-precision sqrt(2) factor)")
+          "circle/ellipse enclosure decided over the real hull of the domain with relative slack 1.001 on r^2 (single-precision sqrt(2) factor); references that are themselves held back by a later anchor; the inside element is a proper box")
 ASSUMPTIONS = ["margin values map to top/right/bottom/left in CSS order (docs: attribute-ref.md#margin)", "percent margins are taken of max(width,height) of the union for surround and of min(width,height) of the intersection for inside (doc comment in position.rs; the property leaves the base to the documentation)",
                "inscribed area of a circle/ellipse for a rect container = centre +- radius * f32(1/sqrt 2); same-shape containers use the bounding box",
                "no minimality is demanded of circumscribed circles/ellipses: only enclosure of the grown box and the common centre"]
